@@ -405,3 +405,49 @@ def expect_best(dist, n, minimize, a, b, o, tol):
     # a few uniform panels as well, so that a wrong ppf cannot starve the subdivision
     es = sorted(set(es) | set(np.linspace(L, U, 33).tolist()))
     return L + adaptive_integral(one_minus_G, es, tol)
+
+
+# ------------------------------------------------------------------ guarded calls (memory / time)
+
+def guarded_call(fn, timeout=60.0, extra_mem=3 << 30):
+    """Run `fn()` in a forked child with an address-space limit (current size + extra_mem) and a wall-clock timeout.
+    Returns ("ok", value) | ("timeout", None) | ("memory", None) | ("error", repr).  The value must be picklable."""
+    import multiprocessing as mpx
+    import resource
+
+    def child(conn):
+        try:
+            try:
+                with open("/proc/self/statm") as f:
+                    cur = int(f.read().split()[0]) * resource.getpagesize()
+            except Exception:
+                cur = 2 << 30
+            resource.setrlimit(resource.RLIMIT_AS, (cur + extra_mem, cur + extra_mem))
+            try:
+                v = fn()
+                conn.send(("ok", v))
+            except MemoryError:
+                conn.send(("memory", None))
+            except BaseException as e:   # noqa: BLE001
+                if "memory" in repr(e).lower() or "allocate" in repr(e).lower():
+                    conn.send(("memory", None))
+                else:
+                    conn.send(("error", repr(e)))
+        finally:
+            conn.close()
+
+    ctx = mpx.get_context("fork")
+    parent, kid = ctx.Pipe(duplex=False)
+    p = ctx.Process(target=child, args=(kid,))
+    p.start()
+    kid.close()
+    res = ("timeout", None)
+    if parent.poll(timeout):
+        try:
+            res = parent.recv()
+        except EOFError:
+            res = ("memory", None)      # killed without a reply (OOM while pickling / allocating)
+    if p.is_alive():
+        p.kill()
+    p.join()
+    return res
